@@ -9,11 +9,23 @@
   prints `case <id>`, one line per observable, `end`.  Unknown model / unparsable config: `bad-case`.
 -/
 import EasyNet.Drv.Framing
+import EasyNet.Drv.Senders
+import EasyNet.Drv.TlsSend
+import EasyNet.Drv.StreamServer
+import EasyNet.Drv.ClosePaths
+import EasyNet.Drv.Race
+import EasyNet.Drv.DgramSrv
 open EasyNet.Drv
 
 /-- one runner per model family; each returns `none` for model names it does not know -/
 def runners : List (String → List String → List String → Option (List String)) :=
   [ runFraming
+  , runSenders
+  , runTls
+  , runStreamServer
+  , runClosePaths
+  , runRace
+  , runDgramSrv
   ]
 
 def dispatch (model : String) (cfg : List String) (ops : List String) : Option (List String) :=
